@@ -9,6 +9,9 @@
 (*        query, callback order, statistics;                               *)
 (*   C14: the typed generic API and the ID-based API have the same effect  *)
 (*        and return the same data;                                        *)
+(*   C06: a batch operation and the single-entity operations it            *)
+(*        abbreviates leave the same world (up to iteration order),        *)
+(*        including what later operations reveal of its hidden state;      *)
 (*   C20: builds with / without ark_tiny and ark_debug produce the same    *)
 (*        results and panic on exactly the same calls.                     *)
 (***************************************************************************)
@@ -59,24 +62,30 @@ OrdEnts(om, st) ==
       t |-> [k \in DOMAIN st.ents[i].t |-> OrdIn(om, st.ents[i].t[k])]] : i \in DOMAIN st.ents}
 OrdSeq(om, hs) == [i \in DOMAIN hs |-> OrdIn(om, hs[i])]
 
-C14(a, b, ma, mb) ==
-    IF a.k # b.k THEN {V("C14.shape", <<a.k, b.k>>)}
+\* Diff(p, ...): the comparison for C14 (p = "C14") and for C06 (p = "C06": the batched execution a and the execution
+\* b in which every batch operation was replaced by the single-entity operations it abbreviates).
+Diff(p, a, b, ma, mb) ==
+    IF a.k # b.k THEN {V(p \o ".shape", <<a.k, b.k>>)}
     ELSE IF a.k = "op"
-    THEN (IF a.panic # b.panic THEN {V("C14.panic-differs", <<a.op, a.i, a.panic, b.panic>>)} ELSE {})
-         \cup (IF Len(a.ret) # Len(b.ret) THEN {V("C14.returned-handles", <<a.op, a.i>>)} ELSE {})
+    THEN (IF a.panic # b.panic THEN {V(p \o ".panic-differs", <<a.op, a.i, a.panic, b.panic>>)} ELSE {})
+         \cup (IF Len(a.ret) # Len(b.ret) THEN {V(p \o ".returned-handles", <<a.op, a.i>>)} ELSE {})
          \cup (IF OrdEnts(a.om, a.st) # OrdEnts(b.om, b.st) \/ a.st.locked # b.st.locked \/ a.st.used # b.st.used
-               THEN {V("C14.state", <<a.op, a.i>>)} ELSE {})
+               THEN {V(p \o ".state", <<a.op, a.i>>)} ELSE {})
          \cup (IF a.op # "Set" /\ Bag(OrdSeq(a.om, [i \in DOMAIN a.cbs |-> a.cbs[i].e])) # Bag(OrdSeq(b.om, [i \in DOMAIN b.cbs |-> b.cbs[i].e]))
-               THEN {V("C14.callback-wiring", <<a.op, a.i>>)} ELSE {})
-         \cup (IF Bag(OrdSeq(a.om, [i \in DOMAIN a.bvals |-> a.bvals[i].e])) # Bag(OrdSeq(b.om, [i \in DOMAIN b.bvals |-> b.bvals[i].e]))
-               THEN {V("C14.batch-callbacks", <<a.op, a.i>>)} ELSE {})
-         \cup (IF a.ok # b.ok THEN {V("C14.query-step", <<a.op, a.i>>)} ELSE {})
+               THEN {V(p \o ".callback-wiring", <<a.op, a.i>>)} ELSE {})
+         \* (a batch relation change need not call back for entities it leaves unchanged)
+         \cup (IF ~(p = "C06" /\ a.op = "SetRelBatch")
+                  /\ Bag(OrdSeq(a.om, [i \in DOMAIN a.bvals |-> a.bvals[i].e])) # Bag(OrdSeq(b.om, [i \in DOMAIN b.bvals |-> b.bvals[i].e]))
+               THEN {V(p \o ".batch-callbacks", <<a.op, a.i>>)} ELSE {})
+         \cup (IF a.ok # b.ok THEN {V(p \o ".query-step", <<a.op, a.i>>)} ELSE {})
     ELSE IF a.k = "probe"
-    THEN (IF a.panic # b.panic THEN {V("C14.panic-differs", "probe")} ELSE {})
+    THEN (IF a.panic # b.panic THEN {V(p \o ".panic-differs", "probe")} ELSE {})
          \cup (IF Bag(OrdSeq(ma, Es(a.visited))) # Bag(OrdSeq(mb, Es(b.visited))) \/ a.count # b.count
                   \/ Bag(OrdSeq(ma, a.at)) # Bag(OrdSeq(mb, b.at))
-               THEN {V("C14.query-result", <<Es(a.visited), Es(b.visited)>>)} ELSE {})
+               THEN {V(p \o ".query-result", <<Es(a.visited), Es(b.visited)>>)} ELSE {})
     ELSE {}
+C14(a, b, ma, mb) == Diff("C14", a, b, ma, mb)
+C06(a, b, ma, mb) == Diff("C06", a, b, ma, mb)
 
 (***************************************************************************)
 (* C20: build configurations (same API path, different build tags).        *)
@@ -101,6 +110,7 @@ C20(a, b) ==
 
 Cmp(ev) == CASE ev.mode = "C12" -> C12(ev.a, ev.b)
              [] ev.mode = "C14" -> C14(ev.a, ev.b, oma, omb)
+             [] ev.mode = "C06" -> C06(ev.a, ev.b, oma, omb)
              [] ev.mode = "C20" -> C20(ev.a, ev.b)
              [] OTHER -> {}
 
